@@ -289,7 +289,8 @@ theorem extendsStageFS_never_panics (c : Cfg) (bs : List BaseFile) (cfg : Val.KV
   split
   · intro h; cases h
   · intro h
-    have hp := ofExtends_panic h
+    have hp : Extends.applyExtends (Extends.realEnv c.mainFile (fsOf c bs)) cfg = .panic s := by
+      revert h; cases Extends.applyExtends (Extends.realEnv c.mainFile (fsOf c bs)) cfg <;> simp [ofExtendsFS]
     have hfs := fsOf_never_panics c bs
     unfold Extends.applyExtends at hp
     split at hp
@@ -350,19 +351,55 @@ theorem loadFS_skipValidation_never_panics (c : Cfg) (bs : List BaseFile) (docs 
   have h2 := (loadFS_panic_origin c bs docs s h).1
   rw [hv] at h2; cases h2
 
-/-- the wrapper is conservative: with no other file on disk it IS the integrator's `Pipeline.load` -/
-theorem processDocsFS_nil (c : Cfg) : ∀ (docs : List Val.KVs) (dict : Val),
-    processDocsFS c [] dict docs = processDocs c dict docs
-  | [], _ => rfl
-  | d :: r, dict => by
-    unfold processDocsFS processDocs
-    have : processDocFS c [] dict d = processDoc c dict d := rfl
-    rw [this]
-    split <;> simp_all [processDocsFS_nil c r]
+/-- same outcome up to the NAME of the failing stage (the wrapper keeps the stage of an error raised inside a referenced
+file; the integrator's `ofExtends` calls every extends-time error `extends`) -/
+def SameUpToStage {α : Type} : Pipeline.Out α → Pipeline.Out α → Prop
+  | .ok a, .ok b => a = b
+  | .err _, .err _ => True
+  | .panic s, .panic t => s = t
+  | _, _ => False
 
-theorem loadFS_nil_eq_load (c : Cfg) (docs : List Val.KVs) : loadFS c [] docs = load c docs := by
+theorem SameUpToStage.bind {α β : Type} {x y : Pipeline.Out α} (f : α → Pipeline.Out β) (hf : ∀ a, SameUpToStage (f a) (f a))
+    (h : SameUpToStage x y) : SameUpToStage (x.bind f) (y.bind f) := by
+  cases x <;> cases y <;> simp_all [SameUpToStage, Out.bind]
+
+theorem SameUpToStage.rfl' {α : Type} (x : Pipeline.Out α) : SameUpToStage x x := by
+  cases x <;> simp [SameUpToStage]
+
+theorem processDocFS_nil (c : Cfg) (dict : Val) (d : Val.KVs) :
+    SameUpToStage (processDocFS c [] dict d) (processDoc c dict d) := by
+  unfold processDocFS processDoc
+  cases interpStage c d with
+  | err e => simp [Out.bind, SameUpToStage]
+  | panic t => simp [Out.bind, SameUpToStage]
+  | ok cfg =>
+    simp only [Out.bind]
+    refine SameUpToStage.bind _ (fun a => SameUpToStage.rfl' _) ?_
+    unfold extendsStageFS extendsStage
+    have hfs : fsOf c [] = [] := rfl
+    rw [hfs]
+    split
+    · simp [SameUpToStage]
+    · cases Extends.applyExtends (Extends.realEnv c.mainFile []) cfg <;> simp [ofExtendsFS, ofExtends, SameUpToStage]
+
+theorem processDocsFS_nil (c : Cfg) : ∀ (docs : List Val.KVs) (dict : Val),
+    SameUpToStage (processDocsFS c [] dict docs) (processDocs c dict docs)
+  | [], _ => by simp [processDocsFS, processDocs, SameUpToStage]
+  | d :: r, dict => by
+    have h := processDocFS_nil c dict d
+    unfold processDocsFS processDocs
+    cases h1 : processDocFS c [] dict d <;> cases h2 : processDoc c dict d <;>
+      simp_all [SameUpToStage]
+    exact processDocsFS_nil c r _
+
+/-- the wrapper is conservative: with no other file on disk it is the integrator's `Pipeline.load` — same model, same
+panic site, an error exactly when that one has an error -/
+theorem loadFS_nil_same_as_load (c : Cfg) (docs : List Val.KVs) : SameUpToStage (loadFS c [] docs) (load c docs) := by
   unfold loadFS load loadYamlModelFS loadYamlModel
-  rw [processDocsFS_nil]
+  split
+  · simp [SameUpToStage]
+  · exact SameUpToStage.bind _ (fun a => SameUpToStage.rfl' _)
+      (SameUpToStage.bind _ (fun a => SameUpToStage.rfl' _) (processDocsFS_nil c docs _))
 
 end FS
 
@@ -425,6 +462,6 @@ the composed function does reach the cross-file branch and loads) … -/
     [[("services", .map [("a", .map [("extends", .map [("file", .str "base.yaml"), ("service", .str "b")])])])]]).stage == "err:extends"
 #guard (CV.C01PipeFS.loadFS { exampleCfg with opts := { skipExtends := false } }
     [⟨"base.yaml", "/w", [[("services", .map [("b", .map [("image", .str "${")])])]]⟩]
-    [[("services", .map [("a", .map [("extends", .map [("file", .str "base.yaml"), ("service", .str "b")])])])]]).stage == "err:extends"
+    [[("services", .map [("a", .map [("extends", .map [("file", .str "base.yaml"), ("service", .str "b")])])])]]).stage == "err:interpolate"
 
 end CV.C01.Whole
